@@ -539,6 +539,7 @@ func (s *store) GC(ctx context.Context, keep int) (int64, error) {
 	if r, ok := w.runOfGo[g]; ok {
 		rs := w.runs[r]
 		rs.gcCalls++
+		w.op(fmt.Sprintf("gc %d", r), "ok")
 		// garbage collection belongs after the updaters: none may be in flight
 		if rs.active > 0 {
 			w.fail("", fmt.Sprintf("gc-while-updaters-in-flight run=%d in-flight=%d", r, rs.active))
